@@ -4,7 +4,7 @@ from . import common as C
 
 CONFIGS = {
     # (capacity, readers, accept-toggle, kset)
-    'C01': {'quick': [(c, r, True, 'full') for c in (3, 4, 5, 6) for r in (1, 2)],
+    'C01': {'quick': [(c, r, True, 'full') for c in (3, 4, 5, 6) for r in (1, 2)] + [(3, 3, True, 'full'), (4, 3, False, 'full'), (3, 4, False, 'ends')],
             'thorough': [(c, r, True, 'full') for c in (3, 4, 5, 6, 7) for r in (1, 2)] + [(8, 1, True, 'full'), (8, 2, False, 'full')]
                         + [(c, 3, True, 'full') for c in (3, 4, 5)] + [(6, 3, False, 'ends')] + [(3, 8, False, 'ends'), (4, 8, False, 'ends')]},
     'C03': {'quick': [(c, r, True, 'full') for c in (3, 4, 5) for r in (1, 2)],
@@ -17,6 +17,39 @@ WHAT = {
     'C02': 'same search; oracle: write regions contiguous, inside the buffer, disjoint from every mapped or unconsumed byte; oversize requests refused',
     'C03': 'same search + parked-writer closure from every state in which a request blocks: no lost wake-up, refusal releases the writer, readers drain in bounded calls',
 }
+
+
+def thread_part(rep, b, tier):
+    """C03 part B: real threads on channel.c + linux/platform.c under vsched, from every blocked (state, request) case of the
+    E1 search for small capacities: all interleavings of the writer's check-then-sleep with reader unmaps and the refuse signal."""
+    from . import rt
+    exe = rt.build_rt('chan_main')
+    caps = [(3, 1), (3, 2), (4, 1)] if tier == 'quick' else [(3, 1), (3, 2), (4, 1), (4, 2), (5, 1)]
+    tmp = tempfile.mkdtemp(prefix='c03b-', dir=f'{C.V}/build')
+    cfgs = []
+    for (cap, nr) in caps:
+        f = f'{tmp}/blocked_{cap}_{nr}.txt'
+        C.run_parallel([[f'{b}/chanbfs', '--cap', str(cap), '--readers', str(nr), '--prop', 'C03', '--dump-blocked', f, '--out', '/dev/null']])
+        small = (cap, nr) == (3, 1)
+        deep = tier == 'thorough' and cap * nr <= 4
+        for (a, rd, bound) in ((0, 1, 2 if small or deep else 1), (1, 1, 2 if small or deep else 1), (1, 0, 3 if small or deep else 2)):
+            if tier == 'quick' and not small and rd:
+                continue # with live readers the product cases x schedules is large: thorough tier only
+            cfgs.append(rt.cfg('c03b', bound, cases=f, with_a=a, readers=rd))
+    sub = C.Report('C03', tier)
+    rt.run_cfgs(sub, exe, cfgs, C.deadline_s(1500 if tier == 'thorough' else 300), 'thread-level check-then-sleep window')
+    for v in sub.violations:
+        rep.violation(v['fingerprint'], v['what'], v['replay'])
+    cb = sub.coverage
+    for c in cb['bounds']['configurations']:
+        c['params']['cases'] = os.path.basename(c['params']['cases'])
+    rep.coverage['thread_level_part'] = {'executions': cb['executions'], 'states': cb['states'], 'transitions': cb['transitions'], 'exhaustive': cb['exhaustive'],
+                                         'distinct_outcomes': cb['distinct_outcomes_summed_over_configurations'], 'configurations': cb['bounds']['configurations'],
+                                         'rule': 'W: channel_write_map(n)[+unmap]; R_i: 3 x (read_map; read_unmap(all)); A: channel_accept_writes(0); start state = every blocked (state, n) case dumped by the E1 search (chosen by a free harness choice), all schedules within the preemption bound; variants: readers only / readers + refusal / refusal with readers gone'}
+    rep.coverage['states'] += cb['states']; rep.coverage['transitions'] += cb['transitions']; rep.coverage['traces_validated_against_impl'] += cb['executions']
+    rep.coverage['exhaustive'] = rep.coverage['exhaustive'] and cb['exhaustive']
+    import shutil
+    shutil.rmtree(tmp, ignore_errors=True)
 
 
 def run(pid, tier):
@@ -71,6 +104,8 @@ def run(pid, tier):
     }
     if c03:
         rep.coverage['parked_writer_closure'] = c03
+    if pid == 'C03':
+        thread_part(rep, b, tier)
     rep.assumptions = ['operation-level atomicity of channel.c (every operation holds the channel lock from entry to exit; the unlocked store in channel_accept_writes is explored at thread level by the c03 thread check)',
                        'ring contents are modelled by per-cell stream lags; channel.c never reads ring memory',
                        'capacities and reader counts beyond the listed configurations are not enumerated']
